@@ -39,6 +39,80 @@ func (P *Prog) reaches(v ssa.Value, pred func(ssa.Value) bool) bool {
 	return found
 }
 
+// reachesVia: reaches, continued through the parameters of the helper(s) the call sits in: a parameter reached in
+// the helper is replaced by the argument at the helper's call site and the slice continues in the caller.
+func (P *Prog) reachesVia(dc deepCall, v ssa.Value, pred func(ssa.Value) bool) bool {
+	level := len(dc.chain)
+	vals := []ssa.Value{v}
+	for {
+		var params []*ssa.Parameter
+		for _, x := range vals {
+			if P.reaches(x, func(y ssa.Value) bool {
+				if pred(y) {
+					return true
+				}
+				if p, ok := y.(*ssa.Parameter); ok {
+					params = append(params, p)
+				}
+				return false
+			}) {
+				return true
+			}
+		}
+		if level == 0 {
+			return false
+		}
+		level--
+		args := dc.chain[level].Common().Args
+		vals = nil
+		for _, p := range params {
+			for k, q := range p.Parent().Params {
+				if q == p && k < len(args) {
+					vals = append(vals, args[k])
+				}
+			}
+		}
+		if len(vals) == 0 {
+			return false
+		}
+	}
+}
+
+// reachesDeep: as reaches, but a call to a repo function is also followed into the values it returns, and a
+// parameter into the arguments of the function's callers (no field-based store flow).
+func (P *Prog) reachesDeep(v ssa.Value, pred func(ssa.Value) bool) bool {
+	found := false
+	F := &Flow{P: P, Inter: true, NoFieldStores: true, Call: func(c *ssa.Call, idx int) ([]ssa.Value, bool) {
+		if idx == -2 {
+			return nil, true
+		}
+		var out []ssa.Value
+		if c.Call.IsInvoke() {
+			out = append(out, c.Call.Value)
+		}
+		out = append(out, callArgsFlat(&c.Call)...)
+		if h, ok := c.Call.Value.(*ssa.Function); ok && h.Blocks != nil && P.isRepoPkg(pkgOf(h)) {
+			for _, r := range returnsOf(h) {
+				if idx >= 0 && idx < len(r.Results) {
+					out = append(out, r.Results[idx])
+				}
+			}
+		}
+		return out, true
+	}, Visit: func(x ssa.Value) bool {
+		if found {
+			return false
+		}
+		if pred(x) {
+			found = true
+			return false
+		}
+		return true
+	}}
+	F.Back(v)
+	return found
+}
+
 // isResumeOffsetSource: a read of ForkInfoList.DataSize (the client's resume offset).
 func isResumeOffsetSource(x ssa.Value) bool {
 	if fa, ok := x.(*ssa.FieldAddr); ok {
@@ -61,80 +135,107 @@ func (R *Run) ruleResumeSkip(fnName string) {
 	fns := withAnons(fn)
 	R.analysed(fname(fn))
 	n := 0
-	for _, f := range fns {
-		// does f parse a resume offset?
-		usesOffset := false
-		eachInstr(f, func(ins ssa.Instruction) {
-			if v, ok := ins.(ssa.Value); ok && isResumeOffsetSource(v) {
-				usesOffset = true
+	isDataOpen := func(x ssa.Value) bool {
+		c := callValue(x)
+		if c == nil {
+			return false
+		}
+		switch calleeName(&c.Call) {
+		case "(*hotline.fileWrapper).dataForkReader", "(hotline.FileStore).Open", "os.Open":
+			return true
+		}
+		return false
+	}
+	isRsrcOpen := func(x ssa.Value) bool {
+		cv := callValue(x)
+		return cv != nil && calleeName(&cv.Call) == "(*hotline.fileWrapper).rsrcForkFile"
+	}
+	// skipOn: a skip call (Seek / Discard / CopyN(io.Discard)) — the reader skipped and the amount
+	skipOn := func(cc *ssa.CallCommon) (rd, amount ssa.Value) {
+		switch calleeName(cc) {
+		case "(*bufio.Reader).Discard":
+			return cc.Args[0], cc.Args[1]
+		case "(*os.File).Seek":
+			return cc.Args[0], cc.Args[1]
+		case "io.CopyN":
+			if g, ok := globalName(cc.Args[0]); ok && g == "io.Discard" {
+				return cc.Args[1], cc.Args[2]
 			}
-		})
+		default:
+			if cc.IsInvoke() && cc.Method.Name() == "Seek" {
+				return cc.Value, cc.Args[0]
+			}
+		}
+		return nil, nil
+	}
+	for _, f := range fns {
+		dcs := P.deepCalls(f, 2)
+		// does f (or a helper it calls) parse a resume offset?
+		usesOffset := false
+		inFns := map[*ssa.Function]bool{f: true}
+		for _, dc := range dcs {
+			inFns[dc.fn] = true
+		}
+		for g := range inFns {
+			eachInstr(g, func(ins ssa.Instruction) {
+				if v, ok := ins.(ssa.Value); ok && isResumeOffsetSource(v) {
+					usesOffset = true
+				}
+			})
+		}
 		if !usesOffset {
 			continue
 		}
 		// data copies: io.Copy(dst, src) where src derives from an opened data file
-		isDataOpen := func(x ssa.Value) bool {
-			c := callValue(x)
-			if c == nil {
-				return false
-			}
-			switch calleeName(&c.Call) {
-			case "(*hotline.fileWrapper).dataForkReader", "(hotline.FileStore).Open", "os.Open":
-				return true
-			}
-			return false
-		}
-		for _, ci := range callsIn(f) {
+		for _, dc := range dcs {
+			ci := dc.call
+			g := dc.fn
 			c := ci.Common()
 			if calleeName(c) != "io.Copy" && calleeName(c) != "io.CopyN" {
 				continue
 			}
 			src := c.Args[1]
-			if g, ok := globalName(c.Args[0]); ok && g == "io.Discard" {
+			if gl, ok := globalName(c.Args[0]); ok && gl == "io.Discard" {
 				continue // a skip, not a copy to the client
 			}
-			// exclude resource fork copies
-			if P.reaches(src, func(x ssa.Value) bool {
-				cv := callValue(x)
-				return cv != nil && calleeName(&cv.Call) == "(*hotline.fileWrapper).rsrcForkFile"
-			}) {
-				continue
-			}
-			if !P.reaches(src, isDataOpen) {
+			if P.reachesVia(dc, src, isRsrcOpen) || !P.reachesVia(dc, src, isDataOpen) {
 				continue
 			}
 			n++
-			construct := fmt.Sprintf("%s: data fork copy #%d", fname(f), nCreateIn(f, ci))
-			// find a skip on a reader that the copy source derives from
+			construct := fmt.Sprintf("%s: data fork copy #%d", fname(g), nCreateIn(g, ci))
+			// a skip, by the resume offset, on a reader that the copy source derives from, before the copy
 			var skip ssa.CallInstruction
-			for _, cj := range callsIn(f) {
-				cc := cj.Common()
-				var rd, amount ssa.Value
-				switch calleeName(cc) {
-				case "(*bufio.Reader).Discard":
-					rd, amount = cc.Args[0], cc.Args[1]
-				case "(*os.File).Seek":
-					rd, amount = cc.Args[0], cc.Args[1]
-				case "io.CopyN":
-					if g, ok := globalName(cc.Args[0]); ok && g == "io.Discard" {
-						rd, amount = cc.Args[1], cc.Args[2]
-					}
-				default:
-					if cc.IsInvoke() && cc.Method.Name() == "Seek" {
-						rd, amount = cc.Value, cc.Args[0]
-					}
-				}
-				if rd == nil {
+			for _, cj := range callsIn(g) {
+				rd, amount := skipOn(cj.Common())
+				if rd == nil || !P.reachesDeep(amount, isResumeOffsetSource) {
 					continue
 				}
-				if !P.reaches(amount, isResumeOffsetSource) {
-					continue
-				}
-				// the copy's source must be (a wrapper of) the reader that was skipped
 				rdRoot := stripConv(rd)
 				same := P.reaches(src, func(x ssa.Value) bool { return stripConv(x) == rdRoot })
 				if same && instrDominates(cj.(ssa.Instruction), ci.(ssa.Instruction)) {
 					skip = cj
+				}
+			}
+			if skip == nil && len(dc.chain) > 0 {
+				// the reader is handed to the helper already positioned: the skip is at the helper's call site
+				last := dc.chain[len(dc.chain)-1]
+				caller := last.Parent()
+				for k, prm := range g.Params {
+					if k >= len(last.Common().Args) || !P.reaches(src, func(x ssa.Value) bool { return x == ssa.Value(prm) }) {
+						continue
+					}
+					arg := stripConv(last.Common().Args[k])
+					for _, cj := range callsIn(caller) {
+						rd, amount := skipOn(cj.Common())
+						if rd == nil || !P.reachesDeep(amount, isResumeOffsetSource) {
+							continue
+						}
+						rdRoot := stripConv(rd)
+						same := arg == rdRoot || P.reaches(arg, func(x ssa.Value) bool { return stripConv(x) == rdRoot })
+						if same && instrDominates(cj.(ssa.Instruction), last.(ssa.Instruction)) {
+							skip = cj
+						}
+					}
 				}
 			}
 			R.check(skip != nil, "resume-skip", construct, P.ipos(ci),
@@ -352,8 +453,8 @@ func (R *Run) ruleDeclaredSizeCopy() {
 			continue
 		}
 		n++
-		sz := callValue(c.Args[2])
-		okSize := sz != nil && calleeName(&sz.Call) == "(*hotline.flattenedFileObject).dataSize" && readFrom != nil && sz.Call.Args[0] == readFrom.Call.Args[0]
+		base, isDeclared := P.declaredDataSizeOf(c.Args[2], 0)
+		okSize := isDeclared && readFrom != nil && base == readFrom.Call.Args[0]
 		fromStream := P.reaches(c.Args[1], func(x ssa.Value) bool { return x == ssa.Value(fn.Params[0]) })
 		ordered := readFrom != nil && instrDominates(readFrom, ci.(ssa.Instruction))
 		R.check(okSize && fromStream && ordered, "declared-size-copy", "hotline.receiveFile: data fork copy", P.ipos(ci),
@@ -363,27 +464,55 @@ func (R *Run) ruleDeclaredSizeCopy() {
 	if n == 0 {
 		R.bad("declared-size-copy", "hotline.receiveFile: data fork copy", P.pos(fn.Pos()), "no io.CopyN into the data-fork target found")
 	}
-	// dataSize reads the data fork header's DataSize, which ReadFrom fills from the stream
-	if ds := R.mustFn("(*hotline.flattenedFileObject).dataSize"); ds != nil {
-		ok := false
-		for _, ret := range returnsOf(ds) {
-			if P.reaches(ret.Results[0], func(x ssa.Value) bool {
-				if fa, isFa := x.(*ssa.FieldAddr); isFa {
-					f, _ := fieldOf(fa)
-					if f == "hotline.FlatFileForkHeader.DataSize" {
-						if inner, isFa2 := fa.X.(*ssa.FieldAddr); isFa2 {
-							g, _ := fieldOf(inner)
-							return g == "hotline.flattenedFileObject.FlatFileDataForkHeader"
-						}
-					}
-				}
-				return false
-			}) {
-				ok = true
-			}
-		}
-		R.check(ok, "declared-size-copy", "hotline.flattenedFileObject.dataSize", P.pos(ds.Pos()), "= FlatFileDataForkHeader.DataSize", "dataSize() does not return the data fork header's DataSize")
+}
+
+// declaredDataSizeOf: v is the 32-bit big-endian value of <base>.FlatFileDataForkHeader.DataSize (converted to an
+// integer type), read in place or through a helper method that returns exactly that of its receiver; returns base.
+func (P *Prog) declaredDataSizeOf(v ssa.Value, depth int) (ssa.Value, bool) {
+	c := callValue(stripConv(v))
+	if c == nil || depth > 2 {
+		return nil, false
 	}
+	if strings.HasSuffix(calleeName(&c.Call), ".Uint32") && strings.Contains(calleeName(&c.Call), "encoding/binary") {
+		args := c.Call.Args
+		sl, ok := args[len(args)-1].(*ssa.Slice)
+		if !ok || sl.Low != nil || sl.High != nil {
+			return nil, false
+		}
+		fa, ok := sl.X.(*ssa.FieldAddr)
+		if !ok {
+			return nil, false
+		}
+		if f, _ := fieldOf(fa); f != "hotline.FlatFileForkHeader.DataSize" {
+			return nil, false
+		}
+		inner, ok := fa.X.(*ssa.FieldAddr)
+		if !ok {
+			return nil, false
+		}
+		if g, _ := fieldOf(inner); g != "hotline.flattenedFileObject.FlatFileDataForkHeader" {
+			return nil, false
+		}
+		return inner.X, true
+	}
+	h, ok := c.Call.Value.(*ssa.Function)
+	if !ok || h.Blocks == nil || !P.isRepoPkg(pkgOf(h)) || len(h.Params) == 0 || len(c.Call.Args) == 0 {
+		return nil, false
+	}
+	rets := returnsOf(h)
+	if len(rets) == 0 {
+		return nil, false
+	}
+	for _, ret := range rets {
+		if len(ret.Results) != 1 {
+			return nil, false
+		}
+		b, ok := P.declaredDataSizeOf(ret.Results[0], depth+1)
+		if !ok || b != ssa.Value(h.Params[0]) {
+			return nil, false
+		}
+	}
+	return c.Call.Args[0], true
 }
 
 // ruleNoOverwrite: an upload is refused when the final name exists.
@@ -501,43 +630,52 @@ func (R *Run) ruleHeaderGate() {
 	}
 	R.analysed(fname(fn))
 	w := fn.Params[0]
-	var header, data, rsrcHdr, rsrc ssa.CallInstruction
-	for _, ci := range callsIn(fn) {
-		c := ci.Common()
+	// the four emissions to the client: found directly in the handler or inside a helper it hands w to
+	var header, data, rsrcHdr, rsrc *deepCall
+	dcs := P.deepCalls(fn, 2)
+	for i := range dcs {
+		dc := &dcs[i]
+		c := dc.call.Common()
 		name := calleeName(c)
-		if (name == "io.Copy" || name == "encoding/binary.Write") && stripConv(c.Args[0]) == ssa.Value(w) {
-			if name == "encoding/binary.Write" {
-				rsrcHdr = ci
-				continue
+		if name != "io.Copy" && name != "encoding/binary.Write" {
+			continue
+		}
+		dst := dc.up(stripConv(c.Args[0]))
+		if dst == nil || stripConv(dst) != ssa.Value(w) {
+			continue
+		}
+		if name == "encoding/binary.Write" {
+			rsrcHdr = dc
+			continue
+		}
+		src := c.Args[1]
+		switch {
+		case P.reachesVia(*dc, src, func(x ssa.Value) bool {
+			fa, ok := x.(*ssa.FieldAddr)
+			if !ok {
+				return false
 			}
-			src := c.Args[1]
-			switch {
-			case P.reaches(src, func(x ssa.Value) bool {
-				fa, ok := x.(*ssa.FieldAddr)
-				if !ok {
-					return false
-				}
-				f, _ := fieldOf(fa)
-				return f == "hotline.fileWrapper.Ffo"
-			}):
-				header = ci
-			case P.reaches(src, func(x ssa.Value) bool {
-				cv := callValue(x)
-				return cv != nil && calleeName(&cv.Call) == "(*hotline.fileWrapper).rsrcForkFile"
-			}):
-				rsrc = ci
-			case P.reaches(src, func(x ssa.Value) bool {
-				cv := callValue(x)
-				return cv != nil && calleeName(&cv.Call) == "(*hotline.fileWrapper).dataForkReader"
-			}):
-				data = ci
-			}
+			f, _ := fieldOf(fa)
+			return f == "hotline.fileWrapper.Ffo"
+		}):
+			header = dc
+		case P.reachesVia(*dc, src, func(x ssa.Value) bool {
+			cv := callValue(x)
+			return cv != nil && calleeName(&cv.Call) == "(*hotline.fileWrapper).rsrcForkFile"
+		}):
+			rsrc = dc
+		case P.reachesVia(*dc, src, func(x ssa.Value) bool {
+			cv := callValue(x)
+			return cv != nil && calleeName(&cv.Call) == "(*hotline.fileWrapper).dataForkReader"
+		}):
+			data = dc
 		}
 	}
 	if header == nil || data == nil {
-		R.bad("header-gate", "hotline.DownloadHandler", P.pos(fn.Pos()), "header copy or data copy not found (mechanism moved)")
+		R.bad("header-gate", "hotline.DownloadHandler", P.pos(fn.Pos()), fmt.Sprintf("header copy (found: %v) or data copy (found: %v) not found (mechanism moved)", header != nil, data != nil))
 		return
 	}
+	hSite, dSite := header.site.(ssa.Instruction), data.site.(ssa.Instruction)
 	cut := map[Edge]bool{}
 	nOpt := 0
 	factEdges(fn, func(e Edge, f Fact) {
@@ -551,33 +689,42 @@ func (R *Run) ruleHeaderGate() {
 		}
 	})
 	reach := reachable(fn, cut)
-	R.check(nOpt > 0 && !reach[header.Block()], "header-gate", "hotline.DownloadHandler: flattened-file header", P.ipos(header), "not sent for a preview request", "the flattened-file header is also sent when transfer options are present (a preview must get the bare data only)")
-	R.check(reach[data.Block()], "header-gate", "hotline.DownloadHandler: data fork (preview)", P.ipos(data), "sent for a preview request too", "the data fork is not sent for a preview request")
-	full := reachable(fn, nil)
-	_ = full
+	R.check(nOpt > 0 && !reach[hSite.Block()], "header-gate", "hotline.DownloadHandler: flattened-file header", P.ipos(header.call), "not sent for a preview request", "the flattened-file header is also sent when transfer options are present (a preview must get the bare data only)")
+	R.check(reach[dSite.Block()], "header-gate", "hotline.DownloadHandler: data fork (preview)", P.ipos(data.call), "sent for a preview request too", "the data fork is not sent for a preview request")
 	// order
-	back := reachableFrom(data.Block(), nil)
-	orderOK := !(back[header.Block()] && header.Block() != data.Block())
-	if header.Block() == data.Block() {
-		orderOK = instrIndex(header.(ssa.Instruction)) < instrIndex(data.(ssa.Instruction))
+	var orderOK bool
+	switch {
+	case hSite == dSite:
+		orderOK = before(*header, *data)
+	case hSite.Block() == dSite.Block():
+		orderOK = instrIndex(hSite) < instrIndex(dSite)
+	default:
+		orderOK = !reachableFrom(dSite.Block(), nil)[hSite.Block()]
 	}
 	if rsrcHdr != nil {
-		orderOK = orderOK && instrDominates(data.(ssa.Instruction), rsrcHdr.(ssa.Instruction))
+		orderOK = orderOK && before(*data, *rsrcHdr)
 	}
 	if rsrc != nil {
-		orderOK = orderOK && instrDominates(data.(ssa.Instruction), rsrc.(ssa.Instruction))
+		orderOK = orderOK && before(*data, *rsrc)
 		if rsrcHdr != nil {
-			back2 := reachableFrom(rsrc.Block(), nil)
-			if back2[rsrcHdr.Block()] && rsrc.Block() != rsrcHdr.Block() {
+			rSite, rhSite := rsrc.site.(ssa.Instruction), rsrcHdr.site.(ssa.Instruction)
+			if rSite == rhSite {
+				orderOK = orderOK && before(*rsrcHdr, *rsrc)
+			} else if reachableFrom(rSite.Block(), nil)[rhSite.Block()] && rSite.Block() != rhSite.Block() {
 				orderOK = false
 			}
 		}
 	}
-	R.check(orderOK && rsrc != nil, "header-gate", "hotline.DownloadHandler: order header → data → resource fork", P.ipos(data), "header before data before resource fork", "the parts of a download are not emitted in the order header, data fork, resource-fork header, resource fork")
+	R.check(orderOK && rsrc != nil, "header-gate", "hotline.DownloadHandler: order header → data → resource fork", P.ipos(data.call), "header before data before resource fork", "the parts of a download are not emitted in the order header, data fork, resource-fork header, resource fork")
 	// a resource-fork header that announces N bytes must be followed by the resource fork on every success path
 	if rsrcHdr != nil && rsrc != nil {
-		okHdr, ret := mustPassAfter(rsrcHdr.(ssa.Instruction), func(x ssa.Instruction) bool {
-			if x == rsrc.(ssa.Instruction) {
+		from, to := rsrcHdr.site.(ssa.Instruction), rsrc.site.(ssa.Instruction)
+		if from == to && rsrcHdr.fn == rsrc.fn {
+			// both inside one helper invocation: decide inside the helper
+			from, to = rsrcHdr.call.(ssa.Instruction), rsrc.call.(ssa.Instruction)
+		}
+		okHdr, ret := mustPassAfter(from, func(x ssa.Instruction) bool {
+			if x == to {
 				return true
 			}
 			// an error return after the header write failed is fine
@@ -586,7 +733,7 @@ func (R *Run) ruleHeaderGate() {
 			}
 			return false
 		})
-		pos := P.ipos(rsrcHdr)
+		pos := P.ipos(rsrcHdr.call)
 		if ret != nil {
 			pos = P.ipos(ret)
 		}
@@ -976,14 +1123,35 @@ func (R *Run) ruleSkipSendsOnce() {
 
 // firstItemRead: the io.ReadFull that starts an item (first read of the connection inside the loop).
 func firstItemRead(fn *ssa.Function, rwc ssa.Value) ssa.Instruction {
+	isWholeRead := func(c *ssa.CallCommon, stream ssa.Value) bool {
+		n := calleeName(c)
+		return (n == "io.ReadFull" || n == "io.ReadAtLeast") && stripConv(c.Args[0]) == stream
+	}
 	for _, b := range fn.Blocks {
 		// a loop block: reaches itself
 		if !reachableFrom(b, nil)[b] {
 			continue
 		}
 		for _, ins := range b.Instrs {
-			if ci, ok := ins.(ssa.CallInstruction); ok && calleeName(ci.Common()) == "io.ReadFull" && stripConv(ci.Common().Args[0]) == rwc {
+			ci, ok := ins.(ssa.CallInstruction)
+			if !ok {
+				continue
+			}
+			if isWholeRead(ci.Common(), rwc) {
 				return ins
+			}
+			// the header read extracted into a helper that is handed the stream
+			if h, ok := ci.Common().Value.(*ssa.Function); ok && h.Blocks != nil && h.Pkg == fn.Pkg {
+				for k, a := range ci.Common().Args {
+					if stripConv(a) != rwc || k >= len(h.Params) {
+						continue
+					}
+					for _, cj := range callsIn(h) {
+						if isWholeRead(cj.Common(), h.Params[k]) {
+							return ins
+						}
+					}
+				}
 			}
 		}
 	}
